@@ -5,6 +5,7 @@ mod z80rec;
 mod timing;
 mod tape;
 mod input;
+mod ports;
 
 fn main() {
     let mut it = std::env::args().skip(1);
@@ -19,6 +20,8 @@ fn main() {
         "timing" => timing::run(&args),
         "tape" => tape::run(&args),
         "input" => input::run(&args),
+        "ports" => ports::run(&args),
+        "portsdbg" => ports::debug(),
         _ => {
             eprintln!("unknown sub-command {cmd:?}");
             std::process::exit(2);
